@@ -58,6 +58,8 @@ type respDelivery struct {
 	// Pauses: after the packet with index i (0-based) has been delivered the peer waits for quiescence
 	// (simulated time passes) before it continues.
 	PauseAfterByte []int // byte offsets of the wire stream after which the peer waits for quiescence
+	// PauseFor: how long each of these pauses lasts (default: one second)
+	PauseFor time.Duration
 	// Terminal condition after TermAt bytes of the wire stream (-1: none).
 	TermKind     int
 	TermAt       int
@@ -219,7 +221,11 @@ func runResp(cfg simrt.Config, d respDelivery, c respClient) *respResult {
 				p.Conn.Deliver(b)
 			}
 			if sg.pause {
-				at += time.Second
+				if d.PauseFor > 0 {
+					at += d.PauseFor
+				} else {
+					at += time.Second
+				}
 			}
 		}
 		if d.TermAt >= 0 {
